@@ -21,7 +21,7 @@ import tempfile
 import time
 import traceback
 from collections import Counter
-from concurrent.futures import ProcessPoolExecutor, as_completed
+from concurrent.futures import FIRST_COMPLETED, ProcessPoolExecutor, wait
 from concurrent.futures.process import BrokenProcessPool
 
 from . import REPO, VERIF, canon, seeds
@@ -62,7 +62,7 @@ def _chunk(prop, stream, seed, tier, lo, hi, cfg, statedir, want_samples):
     samples = []
     reach = set()
     marker = os.path.join(statedir, 'w%d' % os.getpid())
-    faulthandler.dump_traceback_later(cfg.get('chunk_wall', 900), exit=True, file=sys.__stderr__)
+    faulthandler.dump_traceback_later(cfg.get('chunk_wall', 240), exit=True, file=sys.__stderr__)
     try:
         for i in range(lo, hi):
             with open(marker, 'w') as fh:
@@ -80,7 +80,9 @@ def _chunk(prop, stream, seed, tier, lo, hi, cfg, statedir, want_samples):
             stats.update(local)
             stats['runs'] += 1
             d = mod.nontrivial(sc, local) if hasattr(mod, 'nontrivial') else canon.digest_int(_strip(sc))
-            if d is not None:
+            if isinstance(d, (tuple, list)):
+                digests.update(d)
+            elif d is not None:
                 digests.add(d)
             if '_reach' in sc:
                 reach.update(tuple(x) for x in sc.pop('_reach'))
@@ -192,27 +194,31 @@ def run_check(prop, tier, seed=None, workers=None, out=sys.stdout):
     out.flush()
     # pre-pass hooks that need a single fresh process (e.g. C02's census)
     extra = {}
+    ex = ProcessPoolExecutor(max_workers=workers, mp_context=ctx, initializer=_worker_init)
+    futs = {}
     try:
-        with ProcessPoolExecutor(max_workers=workers, mp_context=ctx, initializer=_worker_init) as ex:
-            futs = {}
-            for stream, sizes in mod.STREAMS.items():
-                n = int(sizes[tier] * scale)
-                if n <= 0:
-                    continue
-                planned += n
-                per_stream[stream] = {'planned': n, 'done': 0}
-                csize = max(1, min(sizes.get('chunk', 2000), -(-n // (workers * 4))))
-                first = True
-                for lo in range(0, n, csize):
-                    hi = min(n, lo + csize)
-                    f = ex.submit(_chunk, prop, stream, seed, tier, lo, hi, cfg, statedir, 2 if first else 0)
-                    futs[f] = (stream, lo, hi)
-                    first = False
-            if hasattr(mod, 'single_process_tasks'):
-                for name, fn_name, arg in mod.single_process_tasks(tier, seed, cfg):
-                    f = ex.submit(_call, prop, fn_name, arg)
-                    futs[f] = ('task:' + name, 0, 0)
-            for f in as_completed(futs):
+        for stream, sizes in mod.STREAMS.items():
+            n = int(sizes[tier] * scale)
+            if n <= 0:
+                continue
+            planned += n
+            per_stream[stream] = {'planned': n, 'done': 0}
+            csize = max(1, min(sizes.get('chunk', 2000), -(-n // (workers * 4))))
+            first = True
+            for lo in range(0, n, csize):
+                hi = min(n, lo + csize)
+                f = ex.submit(_chunk, prop, stream, seed, tier, lo, hi, cfg, statedir, 2 if first else 0)
+                futs[f] = (stream, lo, hi)
+                first = False
+        if hasattr(mod, 'single_process_tasks'):
+            for name, fn_name, arg in mod.single_process_tasks(tier, seed, cfg):
+                f = ex.submit(_call, prop, fn_name, arg)
+                futs[f] = ('task:' + name, 0, 0)
+        pending = set(futs)
+        grace_until = None
+        while pending:
+            done, pending = wait(pending, timeout=2.0, return_when=FIRST_COMPLETED)
+            for f in done:
                 stream, lo, hi = futs[f]
                 if f.cancelled():
                     continue
@@ -231,16 +237,38 @@ def run_check(prop, tier, seed=None, workers=None, out=sys.stdout):
                 done_runs += hi - lo
                 for sc, vs in r['violations']:
                     found.append((sc, vs))
-                if time.time() - t0 > wall_cap and not truncated:
-                    truncated = True
-                    for g in futs:
-                        g.cancel()
-            # minimise (in a worker, so a hanging or state-corrupting replay cannot hurt the parent)
-            reports = []
-            seen_sigs = set()
-            known = load_known()
-            open_sigs = dict(((e['property'], e['sig']), e) for e in known.get('open', []))
-            known_hits = {}
+            now = time.time()
+            if now - t0 > wall_cap and not truncated:
+                truncated = True
+                for g in pending:
+                    g.cancel()
+                pending = set(g for g in pending if not g.cancelled())
+                grace_until = now + float(cfg.get('grace', 45))
+            if truncated and pending and now > grace_until:
+                # chunks still running long after the cap: give up on them (no verdict from them)
+                abandoned = len(pending)
+                total['abandoned_chunks'] += abandoned
+                _kill_pool(ex)
+                pending = set()
+    except BrokenProcessPool:
+        harness_problem = 'a worker process died (see stderr); in-flight: %s' % _inflight(statedir)
+    finally:
+        _kill_pool(ex)
+        try:
+            for fn in os.listdir(statedir):
+                os.unlink(os.path.join(statedir, fn))
+            os.rmdir(statedir)
+        except OSError:
+            pass
+
+    # minimise in fresh workers, so a hanging or state-corrupting replay cannot hurt the parent
+    reports = []
+    known_hits = {}
+    if found and not harness_problem:
+        seen_sigs = set()
+        known = load_known()
+        open_sigs = dict(((e['property'], e['sig']), e) for e in known.get('open', []))
+        with ProcessPoolExecutor(max_workers=2, mp_context=ctx, initializer=_worker_init) as ex2:
             for sc, vs in sorted(found, key=lambda x: (x[0].get('_stream', ''), x[0].get('_run', 0))):
                 for v in vs:
                     key = (prop, v.get('sig') or v['invariant'])
@@ -252,27 +280,18 @@ def run_check(prop, tier, seed=None, workers=None, out=sys.stdout):
                     seen_sigs.add(key)
                     if len(reports) >= int(cfg.get('max_reports', 4)):
                         continue
+                    execs = -1
                     try:
-                        small, execs = ex.submit(_shrink_task, prop, _strip(sc), v['invariant'],
-                                                 int(cfg.get('shrink_exec', 300))).result(timeout=900)
-                        vs2 = ex.submit(_single, prop, json.loads(json.dumps(small))).result(timeout=300)
+                        small, execs = ex2.submit(_shrink_task, prop, _strip(sc), v['invariant'],
+                                                  int(cfg.get('shrink_exec', 300))).result(timeout=900)
+                        vs2 = ex2.submit(_single, prop, json.loads(json.dumps(small))).result(timeout=300)
                         v2 = [x for x in vs2 if x['invariant'] == v['invariant']]
                         if not v2:
                             small, v2 = _strip(sc), [v]
-                    except Exception as e:  # shrinking is best-effort; report unshrunk
-                        small, v2, execs = _strip(sc), [v], -1
+                    except Exception:  # shrinking is best-effort; report unshrunk
+                        small, v2 = _strip(sc), [v]
                     small['_shrink_execs'] = execs
                     reports.append((small, v2[0]))
-    except BrokenProcessPool:
-        harness_problem = 'a worker process died (see stderr); in-flight: %s' % _inflight(statedir)
-        reports, known_hits = [], {}
-    finally:
-        try:
-            for fn in os.listdir(statedir):
-                os.unlink(os.path.join(statedir, fn))
-            os.rmdir(statedir)
-        except OSError:
-            pass
 
     wall = time.time() - t0
     replay_paths = []
@@ -304,6 +323,24 @@ def run_check(prop, tier, seed=None, workers=None, out=sys.stdout):
         return HARNESS_EXIT
     print('OK property=%s held on everything explored' % prop, file=out)
     return 0
+
+
+def _kill_pool(ex):
+    procs = list(getattr(ex, '_processes', {}).values()) if getattr(ex, '_processes', None) else []
+    ex.shutdown(wait=False, cancel_futures=True)
+    for p in procs:
+        try:
+            if p.is_alive():
+                p.terminate()
+        except Exception:
+            pass
+    for p in procs:
+        try:
+            p.join(5)
+            if p.is_alive():
+                p.kill()
+        except Exception:
+            pass
 
 
 def _call(prop, fn_name, arg):
